@@ -104,8 +104,35 @@ From TP Require PMonSound_C04 PObs PMon.
 Theorem mon_sound : forall c tr, clean (run c tr) -> taint_iter (run c tr) = false -> PMon.ok_C04 c (PObs.observe c tr) = true.
 Proof. exact PMonSound_C04.mon_C04_sound. Qed.
 
+(** EVENTUAL COMPLETION ("no invocation is lost ... however long it has to wait for room"): under a
+    cooperative environment - one that issues no further request or cancellation and lets every
+    waiting worker finish and every slow callback complete ([coop]: internal steps in ANY order,
+    [OpFinish], [OpReleaseCb]) - every cooperative run from a reachable state is finite (bounded
+    by the measure [mu2]), and every maximal one ends at rest with every spawner finished, every
+    task done, the whole capacity free and every uncancelled request having made exactly one task
+    per non-failing invocation index / consumed its whole iterable.  The two preconditions beyond
+    P-unlock / P-iter are necessary (PLive.size0_rests_incomplete, PLive.resize_rests_incomplete:
+    size 0 can start nothing; an assignment to pool_size can lose a wake-up - open finding D6). *)
+From TP Require PLive_pot PLive_def PLive.
+Theorem C04_eventually_complete : forall c tr0,
+  clean (run c tr0) -> taint_size (run c tr0) = false -> taint_iter (run c tr0) = false ->
+  cf_size c <> Fin 0 ->
+  (exists tr, PLive_def.coop_run (run c tr0) tr /\ at_rest (run c (tr0 ++ tr)) /\
+              PLive.complete_at c (run c (tr0 ++ tr))) /\
+  (forall tr, PLive_def.coop_run (run c tr0) tr -> length tr <= PLive_pot.mu2 (run c tr0)) /\
+  (forall tr, PLive_def.coop_run (run c tr0) tr ->
+              (forall l, ~ PLive_def.coop_run (run c tr0) (tr ++ [l])) ->
+              at_rest (run c (tr0 ++ tr)) /\ PLive.complete_at c (run c (tr0 ++ tr))).
+Proof.
+  intros c tr0 Hc Hts Hti Hsz. split; [|split].
+  - exact (PLive.C04_eventually_complete c tr0 Hc Hts Hti Hsz).
+  - exact (PLive.live_bounded_mu2 c tr0 Hc).
+  - exact (PLive.C04_complete_every_maximal c tr0 Hc Hts Hti Hsz).
+Qed.
+
 Print Assumptions C04.
 Print Assumptions C04_nothing_stranded.
 Print Assumptions C04_complete_at_rest.
 Print Assumptions C04_skips_exactly_failing.
 Print Assumptions mon_sound.
+Print Assumptions C04_eventually_complete.
